@@ -65,8 +65,9 @@ func TestVerifC05(t *testing.T) {
 		seed := scenSeed(sc)
 		w := NewWorld(optsFor(sc, seed))
 		twin := w.AddTwin()
-		if err := w.Prologue(); err != nil {
-			t.Fatal(err)
+		if !startScenario(w, rep, false) {
+			w.Cleanup()
+			continue
 		}
 		s := NewScenario(w, verifutil.NewRng(seed, 5))
 		s.Hostile, s.MaxTxs = 20, 4
@@ -210,8 +211,9 @@ func TestVerifC06(t *testing.T) {
 		}
 		w := NewWorld(o)
 		twin := w.AddTwin()
-		if err := w.Prologue(); err != nil {
-			t.Fatal(err)
+		if !startScenario(w, rep, false) {
+			w.Cleanup()
+			continue
 		}
 		s := NewScenario(w, verifutil.NewRng(seed, 6))
 		s.Hostile, s.MaxTxs = 25, 6
@@ -340,8 +342,9 @@ func TestVerifC10(t *testing.T) {
 		o := optsFor(sc, seed)
 		o.NIdent += 8
 		w := NewWorld(o)
-		if err := w.Prologue(); err != nil {
-			t.Fatal(err)
+		if !startScenario(w, rep, false) {
+			w.Cleanup()
+			continue
 		}
 		s := NewScenario(w, verifutil.NewRng(seed, 10))
 		s.Hostile, s.MaxTxs = 10, 8
